@@ -34,6 +34,10 @@ def program(c):
     if form == "facade":
         return ("mod m {\n  " + pub(c["pubN"]) + "mod n {\n    " + pub(c["pubNA"]) + "fn c(){ 3 }\n  }\n  "
                 + pub(c["reexpPub"]) + "use n::c\n  pub fn unused(){ 0 }\n}\nfn dsp(){\n  m::c()\n}\n")
+    if form == "facade2":
+        return ("mod m {\n  " + pub(c["pubN"]) + "mod n {\n    " + pub(c["pubB"]) + "mod h {\n      " + pub(c["pubNA"])
+                + "fn c(){ 3 }\n    }\n    pub fn unused2(){ 0 }\n  }\n  " + pub(c["reexpPub"])
+                + "use n::h::c\n  pub fn unused(){ 0 }\n}\nfn dsp(){\n  m::c()\n}\n")
     # the reference expression and the `use` lines it needs, relative to where it is written
     uses, ref = [], ""
     if form == "qual":
